@@ -21,10 +21,10 @@ func init() {
 			"integer bookkeeping states (GR4J n1,n2) must be equal",
 		},
 		Workloads: []core.Workload{
-			{Name: "split", Variant: "plain", N: core.Tiered(17*30, 17*3000), Run: func(c *core.Ctx) { c06Split(c, false) }},
+			{Name: "split", Variant: "plain", N: core.Tiered(17*90, 17*3000), Run: func(c *core.Ctx) { c06Split(c, false) }},
 			// the same comparison with the chained segments run on caller-owned C memory (cdata views on guarded
 			// buffers), the way libopenwater's RunSingleModel hot-starts: Unroll() copies there instead of aliasing
-			{Name: "split-cbacked", Variant: "plain", N: core.Tiered(17*12, 17*600), Run: func(c *core.Ctx) { c06Split(c, true) }},
+			{Name: "split-cbacked", Variant: "plain", N: core.Tiered(17*36, 17*600), Run: func(c *core.Ctx) { c06Split(c, true) }},
 		},
 	})
 }
